@@ -85,16 +85,10 @@ Proof. unfold from_bytes. lia. Qed.
 
 (* ------------------------------------------------------------ client vs specification *)
 
-Section ClientSpec.
-  Variable H : bytes -> bytes.
-  Variable PM : Z -> Z -> Z -> Z.
-  Variables (Nm g kc : Z) (hgroup : bytes) (L SL : nat).
-  Hypothesis PM_spec : forall b e m, 0 < m -> 0 <= e -> PM b e m = (b ^ e) mod m.
+Section PadRange.
+  Variables (Nm : Z) (L : nat).
   Hypothesis HN : 0 < Nm.
   Hypothesis HNL : (Z.to_N Nm <= P256 L)%N.
-
-  Let client := client H PM Nm g kc hgroup L SL.
-  Let PADL := PAD L.
 
   Lemma in_range z : 0 <= z < Nm -> (Z.to_N z < P256 L)%N.
   Proof. intros Hz. lia. Qed.
@@ -107,11 +101,22 @@ Section ClientSpec.
     intros Hz. unfold from_bytes, PAD. rewrite be_dec_enc' by now apply in_range. lia.
   Qed.
 
-  Lemma PAD_length z : length (PAD L z) = L.
-  Proof. apply be_enc_length. Qed.
-
   Lemma PAD_inj y z : 0 <= y < Nm -> 0 <= z < Nm -> PAD L y = PAD L z -> y = z.
   Proof. intros Hy Hz E. rewrite <- (from_bytes_PAD y Hy), <- (from_bytes_PAD z Hz), E. reflexivity. Qed.
+End PadRange.
+
+Lemma PAD_length L z : length (PAD L z) = L.
+Proof. apply be_enc_length. Qed.
+
+Section ClientSpec.
+  Variable H : bytes -> bytes.
+  Variable PM : Z -> Z -> Z -> Z.
+  Variables (Nm g kc : Z) (hgroup : bytes) (L SL : nat).
+  Hypothesis PM_spec : forall b e m, 0 < m -> 0 <= e -> PM b e m = (b ^ e) mod m.
+  Hypothesis HN : 0 < Nm.
+  Hypothesis HNL : (Z.to_N Nm <= P256 L)%N.
+
+  Let client := client H PM Nm g kc hgroup L SL.
 
   (* every step of the client, in closed form; in particular it never raises
      for a salt of the expected length and any received public key bytes *)
@@ -132,15 +137,17 @@ Section ClientSpec.
     unfold client, Srp.client, cl_A.
     rewrite PM_spec by assumption. fold A.
     assert (HA : 0 <= A < Nm) by (apply Z.mod_pos_bound; assumption).
-    rewrite (padded_PAD A HA). cbn [rbind]. fold A_b.
+    rewrite (padded_PAD Nm L HN HNL A HA). cbn [rbind]. fold A_b.
     rewrite <- Hlen. rewrite (padded_from_bytes salt Hsalt). cbn [rbind].
     fold x. fold u.
     assert (Hx : 0 <= x) by apply from_bytes_nonneg.
     assert (Hu : 0 <= u) by apply from_bytes_nonneg.
     unfold cl_S. rewrite (PM_spec g x Nm HN Hx).
-    rewrite PM_spec by (try assumption; nia). fold S.
+    assert (He : 0 <= a + u * x).
+    { apply Z.add_nonneg_nonneg; [assumption|]. apply Z.mul_nonneg_nonneg; assumption. }
+    rewrite (PM_spec _ _ Nm HN He). fold S.
     assert (HS : 0 <= S < Nm) by (apply Z.mod_pos_bound; assumption).
-    rewrite (padded_PAD S HS). cbn [rbind]. reflexivity.
+    rewrite (padded_PAD Nm L HN HNL S HS). cbn [rbind]. reflexivity.
   Qed.
 
   (* a salt whose integer value needs more than SL bytes makes set_salt raise *)
@@ -150,7 +157,7 @@ Section ClientSpec.
     intros Ha Hs. unfold client, Srp.client, cl_A.
     rewrite PM_spec by assumption.
     assert (HA : 0 <= g ^ a mod Nm < Nm) by (apply Z.mod_pos_bound; assumption).
-    rewrite (padded_PAD _ HA). cbn [rbind].
+    rewrite (padded_PAD Nm L HN HNL _ HA). cbn [rbind].
     rewrite padded_too_big; [reflexivity|apply from_bytes_nonneg|].
     unfold from_bytes. lia.
   Qed.
@@ -184,7 +191,7 @@ Section ClientSpec.
     unfold server, Srp.server. cbn [s_B_b s_S s_K s_M1 s_ok s_M2].
     set (A := g ^ a mod Nm).
     assert (HA : 0 <= A < Nm) by (apply Z.mod_pos_bound; assumption).
-    rewrite (from_bytes_PAD A HA).
+    rewrite (from_bytes_PAD Nm L HN HNL A HA).
     set (x := sv_x H I P salt).
     assert (Hx : 0 <= x) by apply from_bytes_nonneg.
     set (v := sv_v Nm g x).
@@ -197,7 +204,7 @@ Section ClientSpec.
     rewrite Eu. set (u := sv_u H L A B).
     assert (Hu : 0 <= u) by apply from_bytes_nonneg.
     assert (ES : ((from_bytes B_b - kc * (g ^ x mod Nm)) ^ (a + u * x)) mod Nm = sv_S Nm A v u b).
-    { rewrite EB, (from_bytes_PAD B HB). unfold sv_S, B, sv_B, v, sv_v, A. rewrite Hk.
+    { rewrite EB, (from_bytes_PAD Nm L HN HNL B HB). unfold sv_S, B, sv_B, v, sv_v, A. rewrite Hk.
       apply secret_agree; assumption. }
     rewrite ES. set (S := sv_S Nm A v u b).
     assert (EK : H (PAD L S) = sv_K H L S) by reflexivity.
